@@ -156,7 +156,7 @@ func runC17(c *Ctx) {
 	if t.Bool(1, 2) {
 		firstReady = uint64(1 + t.Choose(uint32(n)))
 	}
-	readyMode := pickStr(t, "next", "last+1")
+	readyMode := pickStr(t, "next", "last+1", "rewind")
 	slow := t.Bool(1, 4)
 	c.Res.Summary = fmt.Sprintf("mode=%s log=%d firstReady=%d readyMode=%s drops=%v slowHandler=%v preempt=1/%d", r.mode, n, firstReady, readyMode, r.dropAfter, slow, cs.S.PreemptDen)
 	done := false
@@ -168,6 +168,9 @@ func runC17(c *Ctx) {
 			cs.H1.ReadyFirst = firstReady
 			if firstReady > 1 {
 				cs.H1.last = firstReady - 1
+			}
+			if readyMode == "rewind" {
+				cs.H1.Rewind = func() uint64 { return uint64(t.Choose(4)) }
 			}
 			if slow {
 				cs.H1.Slow = func() time.Duration {
@@ -231,21 +234,24 @@ func (r *c17run) evaluate(firstReady uint64) {
 		return
 	}
 	c.Probe("handshake_completed")
-	for _, d := range [][]uint64{d1, d2} {
-		for i, id := range d {
-			want := r0 + uint64(i)
-			if id != want {
-				clause := "out-of-order"
-				key := "gap"
-				if id < want {
-					clause = "repeat"
-					key = "already-delivered-id"
+	rewind := cs.H1.ReadyMode == "rewind"
+	if !rewind {
+		for _, d := range [][]uint64{d1, d2} {
+			for i, id := range d {
+				want := r0 + uint64(i)
+				if id != want {
+					clause := "out-of-order"
+					key := "gap"
+					if id < want {
+						clause = "repeat"
+						key = "already-delivered-id"
+					}
+					if i == 0 {
+						key = "first-after-ready"
+					}
+					c.Violate(clause, key, "handler received message id %d at position %d; ids must be consecutive from the declared id %d (delivered: %v; Ready calls: %v)", id, i, r0, d, cs.H1.readyCalls)
+					break
 				}
-				if i == 0 {
-					key = "first-after-ready"
-				}
-				c.Violate(clause, key, "handler received message id %d at position %d; ids must be consecutive from the declared id %d (delivered: %v; Ready calls: %v)", id, i, r0, d, cs.H1.readyCalls)
-				break
 			}
 		}
 	}
@@ -254,10 +260,23 @@ func (r *c17run) evaluate(firstReady uint64) {
 	}
 	if len(d1) > 0 {
 		c.Probe("notification_delivered")
-		if got := cs.RC.NextMessageID(); got != r0+uint64(len(d1)) {
-			c.Violate("next-id", "quiescence", "NextMessageID() = %d, last delivered id + 1 = %d", got, r0+uint64(len(d1)))
+		want := r0 + uint64(len(d1))
+		if rewind {
+			want = c17wantNext(cs.H1)
+		}
+		if got := cs.RC.NextMessageID(); got != want {
+			c.Violate("next-id", "quiescence", "NextMessageID() = %d, last delivered id + 1 = %d", got, want)
 		}
 	}
+	// inside a callback for id N an application that saves NextMessageID() as its resume point
+	// must read more than N, or it processes N again after a reconnect
+	for _, cb := range cs.H1.Log {
+		if (cb.Kind == "tx" || cb.Kind == "update") && cb.Next != 0 && cb.Next <= cb.ID {
+			c.Violate("next-id", "inside-callback", "NextMessageID() read inside the callback for id %d returned %d: declaring ready with it delivers id %d again", cb.ID, cb.Next, cb.ID)
+			break
+		}
+	}
+	r.checkOrderModel()
 	// content equals the service's log entry with that id
 	for _, cb := range cs.H1.Log {
 		if cb.Kind != "tx" && cb.Kind != "update" {
@@ -287,7 +306,13 @@ func (r *c17run) evaluate(firstReady uint64) {
 		if want < 0 {
 			want = 0
 		}
-		if len(d1) != want {
+		if rewind {
+			// ids are delivered again after a rewound Ready: complete means the end of the log
+			// was reached (the order model above decides what came before)
+			if int(last.ReadyID) <= len(r.log) && (len(d1) == 0 || d1[len(d1)-1] != uint64(len(r.log))) {
+				c.Violate("missed", "after-rewound-ready", "the service streamed its log (ids 1..%d) from each declared id (Ready calls %v); handlers received %v, the last connection (declared id %d) was left alone", len(r.log), cs.H1.readyCalls, d1, last.ReadyID)
+			}
+		} else if len(d1) != want {
 			key := "fresh-client/declared-id=1"
 			if firstReady > 1 {
 				key = "fresh-client/declared-id>1"
@@ -300,9 +325,129 @@ func (r *c17run) evaluate(firstReady uint64) {
 	}
 }
 
+// c17wantNext: the declared id of each Ready that went out, then one more per delivery.
+func c17wantNext(h *ClientRecorder) uint64 {
+	want, k := uint64(1), 0
+	for _, cb := range h.Log {
+		switch cb.Kind {
+		case "accept":
+			if k < len(h.readyCalls) {
+				if k < len(h.ReadyErrs) && h.ReadyErrs[k] == nil {
+					want = h.readyCalls[k]
+				}
+				k++
+			}
+		case "tx", "update":
+			want = cb.ID + 1
+		}
+	}
+	return want
+}
+
+// checkOrderModel: reference model of the client's filter. Per connection the service's written
+// messages (after the Ready it received) are walked with expected = the declared id: a numbered
+// message is delivered iff its id is the expected one, InSync and Headers always. What the
+// handlers saw must be a prefix of connection 1's sequence, then a prefix of connection 2's, ...
+// (a connection may die with written messages unread) - for all four kinds, in the service's order.
+func (r *c17run) checkOrderModel() {
+	c, cs := r.c, r.cs
+	for _, e := range cs.H1.ReadyErrs {
+		if e != nil {
+			// a Ready whose send failed on the client's side may or may not have reached the
+			// service: what the service then streams is not what the client expects
+			c.Probe("order_model_skipped_ready_error")
+			return
+		}
+	}
+	type ev struct {
+		kind string
+		id   uint64
+	}
+	var exp [][]ev
+	for _, sc := range cs.Svc.Conns {
+		if sc.ReadyAt < 0 {
+			continue
+		}
+		want := sc.ReadyID
+		if want == 0 {
+			want = 1
+		}
+		var e []ev
+		for _, sent := range sc.SentLog {
+			if sent.At < sc.ReadyAt {
+				continue
+			}
+			switch m := sent.Msg.(type) {
+			case *client.Tx:
+				if m.ID == want {
+					e = append(e, ev{"tx", m.ID})
+					want++
+				}
+			case *client.TxUpdate:
+				if m.ID == want {
+					e = append(e, ev{"update", m.ID})
+					want++
+				}
+			case *client.InSync:
+				e = append(e, ev{"insync", 0})
+			case *client.Headers:
+				e = append(e, ev{"headers", uint64(m.StartHeight)})
+			}
+		}
+		exp = append(exp, e)
+	}
+	for _, h := range []*ClientRecorder{cs.H1, cs.H2} {
+		var got []ev
+		for _, cb := range h.Log {
+			switch cb.Kind {
+			case "tx", "update", "insync", "headers":
+				got = append(got, ev{cb.Kind, cb.ID})
+			}
+		}
+		memo := map[[2]int]bool{}
+		var fits func(ci, pos int) bool
+		fits = func(ci, pos int) bool {
+			if pos == len(got) {
+				return true
+			}
+			if ci == len(exp) {
+				return false
+			}
+			k := [2]int{ci, pos}
+			if v, ok := memo[k]; ok {
+				return v
+			}
+			res := false
+			for n := 0; ; n++ {
+				if fits(ci+1, pos+n) {
+					res = true
+					break
+				}
+				if n >= len(exp[ci]) || pos+n >= len(got) || exp[ci][n] != got[pos+n] {
+					break
+				}
+			}
+			memo[k] = res
+			return res
+		}
+		if !fits(0, 0) {
+			key := "single-connection"
+			if len(exp) > 1 {
+				key = "across-reconnects"
+			}
+			if cs.H1.ReadyMode == "rewind" {
+				key += "/rewound-ready"
+			}
+			c.Violate("order", key, "handler %s saw %v; the service wrote, per connection and filtered by the declared id, %v (Ready calls %v): not a prefix per connection in the service's order", h.Name, got, exp, cs.H1.readyCalls)
+			return
+		}
+	}
+	c.Probe("order_model_judged")
+}
+
 func init() {
 	Register(&Check{Prop: "C17", Sub: "stream-order", Weight: 1, Real: clientReal, Stub: clientStub,
 		Req:  []string{"handshake_completed", "notification_delivered", "reconnected", "completeness_judged"},
-		Rule: "a service log of 3-27 numbered Tx/TxUpdate messages streamed from the id the client declares (exactly, or noisily with duplicates, future ids first, old ids again, repeats after reconnect) with unnumbered InSync/Headers in between, 0-3 connection drops at tape-chosen stream positions, the application declaring ready from the handler with NextMessageID() or its own last+1 (half of the runs a fresh client with a persisted id > 1), optional slow handler; every run is non-trivial.",
+		Rule: "a service log of 3-27 numbered Tx/TxUpdate messages streamed from the id the client declares (exactly, or noisily with duplicates, future ids first, old ids again, repeats after reconnect) with unnumbered InSync/Headers in between, 0-3 connection drops at tape-chosen stream positions, the application declaring ready from the handler with NextMessageID(), its own last+1, or an id up to 3 behind it (a lagging durable resume point) (half of the runs a fresh client with a persisted id > 1), optional slow handler. Oracles: consecutive ids from the declared id, a reference model of the id filter over the service's written messages per connection (all four notification kinds, in the service's order, prefix per connection), NextMessageID() at quiescence and as read inside every callback; every run is non-trivial.",
 		Run:  runC17})
 }
